@@ -98,7 +98,13 @@ func (m *AgentModel) Step(c AgentCall, msgToken int) (ret string, events []Agent
 	return "harness: unknown op " + c.Op, nil
 }
 
-func customErr(k int) string { return "custom:" + string(rune('0'+k)) }
+func customErr(k int) string {
+	if k < 0 {
+		return "nil" // StopWithError(id, nil): the event carries a nil error
+	}
+
+	return "custom:" + string(rune('0'+k))
+}
 
 // CustomErrName is the symbolic name of custom error k.
 func CustomErrName(k int) string { return customErr(k) }
